@@ -25,17 +25,29 @@ def enum_variants(prog, adt):
     return [(v.get("discr", i), v["name"]) for i, v in enumerate(a["variants"])]
 
 
+def _action_enum(prog, fn_key):
+    """(enum adt, param local) if the function takes an action parameter of a local enum type."""
+    fn = prog.fns[fn_key]
+    b = fn.body
+    for l in range(2, b.arg_count + 1):
+        ty = b.locals[l]["ty"]
+        if ty in prog.adts and prog.adts[ty]["kind"] == "enum" and ty.endswith("::Action"):
+            return ty, l
+    return None, None
+
+
 def _slots_in(prog, fn_key, callee_pred, state_adt, variants):
     """For each action variant: set of State fields passed (by reference) to calls selected by callee_pred."""
     inst = prog.ident(fn_key)
     body = prog.fns[fn_key].body
     out = {}
+    _, al = _action_enum(prog, fn_key)
     todo = variants or [(None, "*")]
     for (val, name) in todo:
-        if val is None:
+        if val is None or al is None:
             reached = body.reachable()
         else:
-            reached, _ = PEval(body, assume_discr(body.local_name(2) or "action", val)).run()
+            reached, _ = PEval(body, assume_enum_value(body.local_name(al) or "action", val, name)).run()
         slots = set()
         for b in reached:
             t = body.term(b)
@@ -62,7 +74,8 @@ def dependence_table(ctx, mod):
         return None
     ctx.touch(lda)
     ctx.touch(sla)
-    act = KINDS[mod]
+    # the action enum is read off the signatures (an object kind may gain or lose an action parameter)
+    act = _action_enum(prog, lda)[0] or _action_enum(prog, sla)[0]
     variants = enum_variants(prog, act) if act else None
     if act and not variants:
         return None
@@ -145,7 +158,10 @@ def T3(ctx, mods=None):
         if t is None:
             ctx.missing("T3", mod + "::State", "dependence functions not found")
             continue
-        for (a, b) in REQUIRED[mod]:
+        req = REQUIRED[mod]
+        if mod == "rt::rwlock" and "Read" in t["dep"]:
+            req = [("Read", "Write"), ("Write", "Write")]       # shared acquisitions commute, everything involving a writer does not
+        for (a, b) in req:
             if a not in t["dep"] or b not in t["dep"]:
                 ctx.missing("T3", t["state"], "action %s/%s not found" % (a, b))
                 continue
